@@ -89,7 +89,15 @@ pub fn random_spec(rng: &mut Rng, tier: Tier, among: Option<&[Kind]>) -> NodeSpe
             params.p2 = *rng.pick(&MEGA_PERIODS);
         }
     }
-    NodeSpec { kind, params, mode: random_mode(rng, kind) }
+    let mode = random_mode(rng, kind);
+    // sometimes the subject is built by Default::default() (the reference is new() with the parameters the
+    // default instance reports): an initialiser that disagrees with new()/reset() shows only there
+    if rng.chance(0.03) {
+        if let Some(ds) = crate::sut::default_spec(kind, mode) {
+            return ds;
+        }
+    }
+    NodeSpec { kind, params, mode, dflt: false }
 }
 
 /// VERIF_SCALE (default 1.0) scales the number of seeded runs (used by the self-tests only).
